@@ -18,6 +18,7 @@ def run(repo, res, tier):
     langrules.rule_s1(repo, res, an, "omni")
     langrules.rule_o1(repo, res, an)
     langrules.rule_o2(repo, res, an)
+    langrules.rule_fold(repo, res, an)
     langrules.rule_lex1(repo, res, an, kinds=("number as str() writes it", "date/time"))
     timerules.rule_r(repo, res)
     # a line broken after a hyphen or inside a long token: the default loader's dash-continuation rewrite deletes the
